@@ -22,4 +22,40 @@ rep.coverage["rule"] = ("scenario = initial semaphore values x per-thread progra
     "(semaphore: acquire needs value>0; notify list: Wait(t) may return only once the notify counter passed ticket t). non-trivial = scenarios with >1 terminal state")
 rep.assumptions += ["atomics sequentially consistent (the scheduler does not model weaker orderings)", "pthread mutex/cond modelled; Signal wakes any one waiter",
                     "sync.Mutex/RWMutex/WaitGroup/Once/Cond themselves are Go's own code layered on these primitives (not re-explored here)"]
+# ---- parts E (atomics table) and F (go statements): llgo-compiled programs
+import re, glob, shutil
+sys.path.insert(0, os.path.dirname(os.path.abspath(__file__)))
+import gen as gen11
+from diff import *
+progs = [Prog(n, {"main.go": src}, backends=(("A", ()), ("C", ()))) for n, src in gen11.programs(a.tier).items()]
+results = pmap(lambda p: diff_prog("C11", p, timeout=300), progs, workers=2)
+nprog, ncases, ndist = report_diff(rep, "C11", results)
+rep.coverage["evaluations"] += ncases; rep.coverage["distinct_nontrivial"] += ndist
+# IR table: every sync/atomic function must be one LLVM atomic instruction of the operand's width with seq_cst ordering
+d = workdir("C11", "atomics_ir")
+src = os.path.join(d, "src"); gc = os.path.join(d, "gocache")
+write_module(src, {"main.go": gen11.prog_atomics()})
+shutil.rmtree(gc, ignore_errors=True); os.makedirs(gc)
+e = llgo_env("C", "-atomir"); e["GOCACHE"] = gc
+r = subprocess.run([llgo_path(), "build", "-O0", "-gen-llfiles", "-o", os.path.join(d, "x.exe"), "."], cwd=src, env=e, capture_output=True, text=True, timeout=1800)
+irs = [f for f in glob.glob(os.path.join(gc, "*", "*.ll")) if "f_LoadInt32" in open(f).read()]
+table_ok = 0
+if r.returncode != 0 or not irs:
+    rep.violation("harness:atomics-ir", "could not obtain the IR of the atomics program:\n" + r.stderr[-1500:])
+else:
+    txt = open(irs[0]).read()
+    for name, decl, instr, width in gen11.table():
+        m = re.search(r'define [^\n]*@"?vt\.%s"?\(.*?\n}\n' % name, txt, re.S)
+        if not m:
+            rep.violation("atomics-ir:" + name, "function %s not found in the IR" % name); continue
+        body = m.group(0)
+        atom = [l.strip() for l in body.split("\n") if re.search(r"\b(load atomic|store atomic|atomicrmw|cmpxchg|fence)\b", l)]
+        ok = len(atom) == 1 and instr in atom[0] and ("seq_cst seq_cst" in atom[0] if "cmpxchg" in instr else "seq_cst" in atom[0]) and ("i%d" % width in atom[0] or "ptr" in atom[0])
+        if ok:
+            table_ok += 1
+        else:
+            rep.violation("atomics-ir:" + name, "sync/atomic %s must lower to exactly one `%s ... seq_cst` on i%d; IR has: %s" % (name[2:], instr, width, atom or "no atomic instruction"))
+rep.coverage["atomics_ir_table"] = {"functions": len(gen11.table()), "lowered_to_one_seq_cst_instruction": table_ok}
+rep.coverage["rule"] += ("; E: each of the %d functions of sync/atomic's function API is compiled alone and its IR must contain exactly one atomic instruction of the right opcode, width and "
+    "seq_cst ordering, results on boundary operands equal go1.24.0 (typed API and atomic.Value sequentially); F: 12 go-statement forms x argument shapes, values mutated after the statement, in loops" % len(gen11.table()))
 rep.finish()
